@@ -138,7 +138,7 @@ PROPS["C19"] = dict(
 )
 PROPS["C17"] = dict(
     title="the SDK v1 and SDK v2 clients are behaviourally equivalent",
-    quick=[G("M_MODE"), G("M_LIFE", cfg="M_LIFE_b"), G("M_IDX"), G("M_BATCH", cfg="M_BGET")],
+    quick=[G("M_MODE"), G("M_LIFE", cfg="M_LIFE_b"), G("M_IDX"), G("M_BATCH", cfg="M_BGET"), G("M_NATIVE", cfg="M_NATIVE_pre")],
     thorough=[G("M_MODE", cfg="M_MODE_t"), G("M_LIFE", cfg="M_LIFE_t"), G("M_IDX", cfg="M_IDX_t"), G("M_BATCH", cfg="M_BGET"),
               G("M_C01a"), G("M_COND"), G("M_FAIL"), G("M_READ"), G("M_READ", cfg="M_WALK")],
     own=[SDK],
@@ -243,6 +243,18 @@ PROPS["C14"] = dict(
                "location of the caller's structures after the call returned and re-reads; TLC judges the re-read against the specification, in "
                "which caller writes are stuttering steps.  Aliasing itself is below the level of a TLA+ state machine (DESIGN.md 7): the "
                "specification supplies the rule, the shapes and the verdict; the locations are walked by the harness.",
+)
+PROPS["C20"] = dict(
+    title="native-interpreter overrides are dispatched exactly and fall back safely",
+    quick=[G("M_NATIVE"), G("M_NATIVE", cfg="M_NATIVE_pre")],
+    thorough=[G("M_NATIVE"), G("M_NATIVE", cfg="M_NATIVE_pre")],
+    own=[parts("Outcome", "ErrClass", "Data", "Base", "CrossFire", "NotDispatched", "NoCrash")],
+    design_ref="DESIGN.md 6 C20",
+    level_text="Every subset of a registration menu (anagram pairs, the same text for another table and another expression kind, an updater) x "
+               "requests whose texts vary in surrounding / repeated whitespace, are anagrams or different x native interpreter on / off is "
+               "enumerated by TLC and replayed; callbacks are instrumented Go closures whose verdict is the opposite of the built-in interpreter's, "
+               "so TLC judges from outcome, post-state and the recorded set of callbacks that ran: exact dispatch, no cross-fire, fallback for "
+               "matchers, unsupported-feature error without change for updates.",
 )
 
 # properties deliberately not claimed, with the reason (none so far: unbuilt ones get a work-in-progress reason)
